@@ -53,7 +53,7 @@ META = dict(
     category='other',
     text='Completion bookkeeping checked by abstract execution of the effective routines over symbolic rows (tally fan-out, partition of terminal states, completion test after the increment on the '
          'same entity over all ancestors, re-opening at commit), plus who-may-write / shape rules for the closure table and the staged job counts that these roll-ups trust, and reader/writer agreement '
-         'for the reported counts.',
+         'for the reported counts, and provenance of every reported status (database query of the same request, never per-process state).',
     note='Trusted: SQL parser, the abstract executor (engines/jobgraphfacts.py); MySQL applies UPDATE assignments left to right. Once-only counting is C04-R2; uncommitted updates are C41.',
     technique='static analysis: abstract execution of extracted SQL routine bodies over symbolic values with explicit case splits, normal forms of row selections, who-may-write and alias rules in Python',
     design_ref='DESIGN.md §3 C06',
